@@ -387,26 +387,44 @@ func c30(c *report.Check, thorough bool, only string) {
 	evalL := 0
 	{
 		b := pool.get()
-		lrems := []time.Duration{-time.Hour, -time.Second, 0, time.Second, 30 * time.Second, skew, pos - time.Second, pos, pos + time.Second, 24 * time.Hour}
-		for _, now := range nows {
-			vtime.Set(now)
-			for _, r := range lrems {
-				for _, withLeaf := range []bool{true, false} {
-					na := now.Truncate(time.Second).Add(r + skew)
-					crt := selfSigned("load.example.org", ecKey, na)
-					if !withLeaf {
-						crt.Leaf = nil
+		// The provider takes time: it advances the clock by the latency before it returns. The
+		// entry enters the cache when the loader returns, so its lifetime counts from that
+		// instant (the clock read after the call), not from the start of the load.
+		lrems := []time.Duration{-time.Hour, -time.Second, 0, time.Second, 30 * time.Second, skew, pos - time.Second, pos, pos + time.Second, 2 * pos, 24 * time.Hour}
+		lats := []time.Duration{0, time.Second, 30 * time.Second, pos, 2 * time.Hour}
+		if thorough {
+			lats = append(lats, 1, time.Millisecond, skew, pos-time.Second, pos+time.Second, 48*time.Hour)
+		}
+		for _, start := range nows {
+			for _, lat := range lats {
+				for _, r := range lrems {
+					for _, withLeaf := range []bool{true, false} {
+						// r = what is left before NotAfter-skew at the instant the provider returns
+						// (negative: the latency outlasted the certificate)
+						na := start.Add(lat).Truncate(time.Second).Add(r + skew)
+						crt := selfSigned("load.example.org", ecKey, na)
+						if !withLeaf {
+							crt.Leaf = nil
+						}
+						vtime.Set(start)
+						b.prov.mu.Lock()
+						b.prov.fn = func(string) (*tls.Certificate, error) {
+							vtime.Set(vtime.Now().Add(lat))
+							return crt, nil
+						}
+						b.prov.mu.Unlock()
+						got, resErr, ttl, _, loadErr := b.srv.VerifKeylessLoad(cl[0].ctx(), "load.example.org")
+						inserted := vtime.Now()
+						evalL++
+						if got == nil || resErr != nil || loadErr != nil {
+							c.Internal(fmt.Sprintf("loader failed on a good certificate: %v %v", resErr, loadErr))
+							continue
+						}
+						if inserted.Sub(start) != lat {
+							c.Internal("stub provider was not called exactly once by the loader")
+						}
+						checkTTL(fmt.Sprintf("loader-leaf=%v-provider-latency=%v", withLeaf, lat), ttl, na, inserted)
 					}
-					b.prov.mu.Lock()
-					b.prov.fn = func(string) (*tls.Certificate, error) { return crt, nil }
-					b.prov.mu.Unlock()
-					got, resErr, ttl, _, loadErr := b.srv.VerifKeylessLoad(cl[0].ctx(), "load.example.org")
-					evalL++
-					if got == nil || resErr != nil || loadErr != nil {
-						c.Internal(fmt.Sprintf("loader failed on a good certificate: %v %v", resErr, loadErr))
-						continue
-					}
-					checkTTL(fmt.Sprintf("loader-leaf=%v", withLeaf), ttl, na, now)
 				}
 			}
 		}
@@ -442,13 +460,13 @@ func c30(c *report.Check, thorough bool, only string) {
 	c.Set("loader_cases", evalL)
 	c.Set("distinct_nontrivial", dist.N())
 	c.Set("rule", fmt.Sprintf("rpc: %d hostnames/spellings (ECDSA, RSA, Ed25519 leaf keys; IDN; apex sub-domain) x binding {unbound, caller, other} x 3 callers x proof %v x {GetCertificate, Sign x algo {0,1,2,3,4,-1} x digest lengths {0,1,20,32,48,64,65,128,h-1,h+1}}; "+
-		"ttl: computeKeylessTTL for NotAfter-skew-now in a boundary alphabet and a sweep of [-2 skew, positive+2 skew] in steps of %v x 4 sub-second clock offsets (leaf form), DER-only form every %d s; loader: real keylessCertLoader under the frozen clock; "+
+		"ttl: computeKeylessTTL for NotAfter-skew-now in a boundary alphabet and a sweep of [-2 skew, positive+2 skew] in steps of %v x 4 sub-second clock offsets (leaf form), DER-only form every %d s; loader: real keylessCertLoader with a provider that advances the clock by a latency in {0,1s,30s,5m,2h} (thorough: 6 more) x remaining validity at return x leaf/DER x 4 clock offsets, TTL judged from the instant the loader returns; "+
 		"class = (op, host, binding, proof, algo, length class, served) / (ttl form, remaining class)", len(c30Hosts), acmeProofKinds, step, derStep))
 	c.Set("samples", dist.Samples())
 	c.Set("exhaustive", true)
 	c.Assume("handlers driven directly with rpc.WithDelegation; bindings are seeded in a real memory KV exactly as AcmeValidate stores them (C29 checks how they come about)",
 		"certificate provider is a stub returning one fixed chain per hostname; accepted signatures are verified against that chain's leaf with the Go standard library",
 		"a TTL of 1 s is allowed when nothing is left before NotAfter minus skew (a cache entry needs a positive lifetime; DESIGN.md §7 C30); otherwise now+TTL <= NotAfter-skew",
-		"tun/server/keyless_cache.go reads the harness clock (import rewrite); the theine cache is trusted to honour the TTL it is given",
+		"tun/server/keyless_cache.go reads the harness clock (import rewrite); provider latency is modelled by the stub provider advancing that clock; the entry is inserted when the loader returns; the theine cache is trusted to honour the TTL it is given",
 		"refusing an authorised, well-formed request is counted (rpc_eligible_but_refused: Ed25519 keys cannot sign SHA-256/384 digests) but not judged")
 }
